@@ -69,6 +69,12 @@ func childMain(dir string) {
 			}
 		}
 	}
+	var wideArrived atomic.Int64
+	wideAll := make(chan struct{})
+	wideRel, wideEnded := map[string]chan struct{}{}, map[string]chan struct{}{}
+	for _, m := range sc.Mods {
+		wideRel[m.Name], wideEnded[m.Name] = make(chan struct{}), make(chan struct{})
+	}
 	parked, release := make(chan struct{}), make(chan struct{})
 	var releaseOnce sync.Once
 	var parkMissed atomic.Bool
@@ -109,6 +115,23 @@ func childMain(dir string) {
 					parkMissed.Store(true)
 				}
 			}
+			if sc.Wide != nil && phase == "start" && k == 1 {
+				// wide level: the start routines of all modules are held until every one
+				// of them has begun, then released together ("burst") or in an order
+				// chosen by the controller below ("held")
+				if wideArrived.Add(1) == int64(len(sc.Mods)) {
+					close(wideAll)
+				}
+				gate := wideAll
+				if sc.Wide.Mode == "held" {
+					gate = wideRel[name]
+				}
+				select {
+				case <-gate:
+				case <-time.After(10 * time.Second):
+					parkMissed.Store(true)
+				}
+			}
 			if b.DelayUs > 0 {
 				time.Sleep(time.Duration(b.DelayUs) * time.Microsecond)
 			}
@@ -125,6 +148,9 @@ func childMain(dir string) {
 			lg.Rec("end", name, phase, map[string]any{"n": k, "res": res})
 			lastPhase[name].Store(phase)
 			open.Add(-1)
+			if sc.Wide != nil && phase == "start" && k == 1 {
+				close(wideEnded[name])
+			}
 			switch res {
 			case "err":
 				return fmt.Errorf("injected %s failure of %s (#%d)", phase, name, k)
@@ -225,6 +251,46 @@ func childMain(dir string) {
 		lg.Rec("ret", "driver", "enable", map[string]any{"m": n, "changed": ch})
 	}
 
+	if sc.Wide != nil && sc.Wide.Mode == "held" {
+		// Amplifier "manager held while reports pile up": when all start routines are
+		// parked, the write lock of one module (sync.RWMutex is an exported part of
+		// modules.Module) is taken; the first successful report makes the manager
+		// re-evaluate all modules and wait in that module's Status(). The routines named
+		// in Order then finish one after the other, their reports queue up, and the
+		// manager is let go. This only delays the manager at a point where it can be
+		// preempted anyway; all waits are bounded and none is part of a verdict.
+		go func() {
+			wait := func(ch chan struct{}, d time.Duration) {
+				select {
+				case <-ch:
+				case <-time.After(d):
+					parkMissed.Store(true)
+				}
+			}
+			wait(wideAll, 10*time.Second)
+			held := mods[sc.Wide.Hold]
+			held.Lock()
+			for i, n := range sc.Wide.Order {
+				close(wideRel[n])
+				wait(wideEnded[n], 5*time.Second)
+				if i == 0 {
+					time.Sleep(2 * time.Millisecond) // manager takes the report and starts re-evaluating
+				} else {
+					time.Sleep(700 * time.Microsecond) // the report is queued on the channel
+				}
+			}
+			held.Unlock()
+			inOrder := map[string]bool{}
+			for _, n := range sc.Wide.Order {
+				inOrder[n] = true
+			}
+			for _, m := range sc.Mods {
+				if !inOrder[m.Name] {
+					close(wideRel[m.Name])
+				}
+			}
+		}()
+	}
 	if ops := sc.PrepOps["globalprep"]; len(ops) > 0 {
 		modules.SetGlobalPrepFn(func() error {
 			runSteps("globalprep", ops, nil)
